@@ -691,6 +691,10 @@ def run_real(rng, t, cls, route, x):
         obj = x if plain else cimcls(x)
         if route == "atomic":
             text = atomic_to_cim_xml(obj)
+        elif route == "keybinding":
+            xml = pywbem.CIMInstanceName("C", {"K": cimcls(x)}).tocimxmlstr()
+            m = re.search(r"<KEYVALUE[^>]*>(.*)</KEYVALUE>", xml, re.S)
+            text = m.group(1) if m else "UNCLASSIFIED-no-KEYVALUE-element"
         else:
             xml = CIMProperty("P", cimcls(x)).tocimxmlstr()
             m = re.search(r"<VALUE>(.*)</VALUE>", xml, re.S)
@@ -706,6 +710,9 @@ def run_real(rng, t, cls, route, x):
             pad = rng.choice(["", " ", "\n "])
             back = _tupleparse.TupleParser().unpack_numeric(pad + text + pad,
                                                             t)
+        elif route == "keybinding":
+            tt = _tupletree.xml_to_tupletree_sax(xml.encode("utf-8"), "C06")
+            back = _tupleparse.TupleParser().parse_instancename(tt)["K"]
         else:
             tt = _tupletree.xml_to_tupletree_sax(xml.encode("utf-8"), "C06")
             back = _tupleparse.TupleParser().parse_property(tt).value
